@@ -384,6 +384,9 @@ def correspondence(ctx, prop, model_mod, scenarios, label):
             cov = None
     try:
         hangs = 0
+        gc.collect()
+        gc.freeze()
+        gc_done, gc_cost = time.time(), 0.0
         for n, lines in enumerate(scenarios):
             try:
                 obs, hs = run_impl_guarded(model_mod, lines)
@@ -397,10 +400,20 @@ def correspondence(ctx, prop, model_mod, scenarios, label):
                 ctx.cov['stopped_after_hangs'] = {'stream': label, 'scenarios_run': n + 1, 'of': len(scenarios)}
                 scenarios = scenarios[:n + 1]
                 break
-            if n % 100 == 99:
-                # scenarios define classes; collect them so that subclass registries do not grow
+            if n % 100 == 99 and time.time() - gc_done > 20 * gc_cost:
+                # scenarios define classes; collect them so that subclass registries do not grow.  The
+                # runners call gc.collect() themselves (is a forgotten object still alive?): everything
+                # that exists now is moved out of the collector's sight, so that those calls only walk
+                # what the next scenarios create instead of the whole heap of the run
+                # (a full collection walks everything recorded so far: at most 5 % of the run goes into it)
+                t_gc = time.time()
+                gc.unfreeze()
                 gc.collect()
+                gc.freeze()
+                gc_done = time.time()
+                gc_cost = gc_done - t_gc
     finally:
+        gc.unfreeze()
         if cov is not None:
             cov.stop()
             try:
@@ -510,6 +523,9 @@ def run_check(pid, tier, seed):
             raise MachineryError('leanchecker rejected the compiled proofs:\n' + out[-2000:])
 
     # 3. corpus + generated scenarios -----------------------------------------------------------
+    stage = cov.setdefault('stage_wall_s', {})
+    stage['build_audit_recheck'] = round(time.time() - ctx.t0, 1)
+    t_stage = time.time()
     rng = random.Random(seed * 1000003 + int(pid[1:]))
     corpus = load_corpus(pid)
     gen = list(prop.generate(rng, tier))
@@ -528,8 +544,12 @@ def run_check(pid, tier, seed):
         cov['distribution'] = prop.stats(scenarios, impl_obs)
     if divs:
         ctx.broken.append({'kind': 'correspondence', 'count': len(divs), 'first': divs[0]})
+    stage['main_stream'] = round(time.time() - t_stage, 1)
+    t_stage = time.time()
     if hasattr(prop, 'extra_checks'):
         prop.extra_checks(ctx)
+    stage['further_streams'] = round(time.time() - t_stage, 1)
+    t_stage = time.time()
 
     # 4. known findings -----------------------------------------------------------------------
     for e in load_findings(pid):
@@ -588,6 +608,7 @@ def run_check(pid, tier, seed):
         print(f'VIOLATION property={pid} replay={path} no-failing-input-found')
         print(f'  {what}')
         status = 1
+    stage['findings_search_shrink'] = round(time.time() - t_stage, 1)
     write_evidence(ctx, prop, status)
     return status
 
